@@ -490,4 +490,14 @@ def cases(rng, tier):
     # ------------------------------------------------------------ trial division (model and lemmas in Elementary)
     for n in list(range(-2, 300 if not th else 3000)) + [2 ** 20 + 7, 1001 * 1009, 36355439941184]:
         out.append(Case('trial_factorize', line('trial_factorize', n), oracle=o_trial(n), nontrivial=n > 3, tag='trial'))
+    # trial division next to the machine-word boundary of the divisor (p * p passes 2^32 when p passes 65536): primes and
+    # semiprimes just above 65535^2, in both profiles
+    for n in (4294967291, 4294967311, 600 * 4294967291, 65537 * 65537, 65521 * 65537, 4295098369 + 2, 2 ** 33 - 9, 2 * (2 ** 32 + 15)):
+        for prof in ('debug', 'release'):
+            out.append(Case('trial_factorize', line('trial_factorize', n), oracle=o_trial(n), nontrivial=True, tag='trial-word-boundary', profile=prof))
+    # strong pseudoprimes to the first few prime bases (psi_k), and composites p * q with both factors just above 1000 / 2^10 / 2^16
+    # (a primality shortcut for "small" cofactors, or a fixed set of bases, accepts exactly these), through both drivers
+    for i, n in enumerate([2047, 1373653, 25326001, 3215031751, 2152302898747, 3474749660383, 341550071728321, 12 * 3215031751,
+                           1009 * 1013, 1009 * 1009, 1013 * 1019, 1021 * 1031, 1031 * 1033, 8 * 1009 * 1021, 65537 * 65539, 1000003 * 1000033]):
+        both(n, 'pseudoprime-or-small-cofactor', i)
     return out
